@@ -20,6 +20,8 @@ package sql
 //     pinned instant.
 
 import (
+	"errors"
+	"context"
 	"database/sql"
 	"fmt"
 	"io"
@@ -1033,7 +1035,10 @@ func TestVerifC14(t *testing.T) {
 		} else if schemaKnown {
 			d1, e1 := c14RunFresh(st[0].Sql)
 			d2, e2 := c14RunFresh(st[0].Sql)
-			if e1 != nil || e2 != nil {
+			if errors.Is(e1, context.DeadlineExceeded) || errors.Is(e2, context.DeadlineExceeded) {
+				rep.Count("multi:sqlite-run-abandoned-after-20s")
+				d1, d2 = "", ""
+			} else if e1 != nil || e2 != nil {
 				rep.Count("multi:sqlite-stops-at-an-error") // what ran before the error is compared all the same
 			}
 			switch {
@@ -1144,7 +1149,7 @@ func TestVerifC14(t *testing.T) {
 		bodies := []string{"INSERT INTO ev(begin, end) VALUES(1, 2)", "UPDATE ev SET a = 1 WHERE end > 5", "SELECT end FROM ev",
 			"INSERT INTO end(a) VALUES(1)", "INSERT INTO ev(id, a) VALUES(1, 1) ON CONFLICT(id) DO NOTHING", "SELECT CASE WHEN 1 THEN 2 END",
 			"UPDATE ev SET a = CASE WHEN end > 1 THEN begin ELSE 0 END WHERE begin < end", "DELETE FROM ev WHERE begin = 1 AND end = 2",
-			"INSERT INTO t(a) VALUES(1)", "SELECT begin, end FROM ev ORDER BY end", "INSERT INTO ev(a) SELECT end FROM ev",
+			"INSERT INTO t(a) VALUES(1)", "SELECT begin, end FROM ev ORDER BY end", "INSERT INTO t(a) SELECT end FROM ev LIMIT 2",
 			"SELECT 'end; begin', \"end\" FROM ev", "SELECT 1 /* end; */", "INSERT INTO ev(a, begin) VALUES(random(), 3)"}
 		creates := []string{"CREATE TRIGGER tr ", "CREATE TRIGGER IF NOT EXISTS tr ", "EXPLAIN CREATE TRIGGER tr ", "create trigger \"end\" ",
 			"CREATE TEMP TRIGGER tr ", "CREATE TEMPORARY TRIGGER tr "}
@@ -1338,7 +1343,13 @@ func c14RunFresh(text string) (string, error) {
 		INSERT INTO ev(a, begin, end) VALUES(1, 1, 9), (2, 5, 6); INSERT INTO t(a) VALUES(0)`); err != nil {
 		return "", err
 	}
-	_, xerr := db.Exec(text)
+	// (bounded: row triggers that insert into their own table's source can multiply the rows)
+	ctx, cancel := context.WithTimeout(context.Background(), 20*time.Second)
+	defer cancel()
+	_, xerr := db.ExecContext(ctx, text)
+	if ctx.Err() != nil {
+		return "", ctx.Err()
+	}
 	db.Exec("COMMIT") // a text may leave a transaction open
 	return c14Eval(db, "SELECT a, b FROM t ORDER BY rowid") + " / " + c14Eval(db, "SELECT id, a, begin, end FROM ev ORDER BY id") + " / " +
 		c14Eval(db, "SELECT a FROM end ORDER BY rowid"), xerr
